@@ -7,7 +7,7 @@ of every other handler the model transcribes, the decorator tables of `_pslinux.
 `psutil.Process`, the public method list (runtime dump in a subprocess).
 
 Correspondence: a fake procfs tree per world (1-3 threads, 0-4 descriptors of each kind, 1-3
-other PIDs), the real front-end methods driven in-process through the fault layer
+other PIDs; family `tree`: ancestor chains, grandchildren, stale / recycled descendants, ppid cycles), the real front-end methods driven in-process through the fault layer
 `c03_faultfs.FaultFS`; for each public method EVERY single fault position of the
 implementation's actual access trace (vanish / zombie from k, EACCES / EPERM at k) and, in the
 thorough tier, every (deny i, vanish j>i) and (zombie i, gone j>i) pair; the same plan is run
@@ -38,7 +38,7 @@ TRUSTED = [
     "C03 denials apply to paths below /proc/<pid> (any pid) and to native per-process calls; the /proc listing itself and /proc/net/* are system-wide and never denied",
 ]
 MANIFEST = {
-    "level_text": "Machine-checked Lean 4 proofs over a shallow state+exception monad model of psutil's Linux process layer and front end: for every modelled public Process method (C03_safe_<method>, assembled in C03_all_methods over the translator-generated public method list, un-modelled names listed explicitly) and EVERY admissible fault plan (the target turns zombie and/or disappears at any access index, at most one access is refused with EACCES/EPERM — a superset of the property's vanishAt/zombieFrom/denyAt/deny-then-vanish plans) the outcome is a well-formed value or NoSuchProcess/ZombieProcess/AccessDenied carrying the object's pid; loops (threads, open_files, net_connections, ppid_map, children, as_dict, process_iter) by induction over the listed names so any number of threads/descriptors/PIDs is covered; parsing-error constructors are proved unreachable; the bare FileNotFoundError re-raise of wrap_exceptions is proved unreachable under admissible plans (and reachable with two denials); C03_gone_is_NSP, C03_as_dict_policy, C03_process_iter_swallow. children() is proved safe for the repaired ppid_map and a counterexample plan is proved for the unrepaired one (lead L3). Tied to the code by translator facts (except tables, decorator tables) that feed the proof obligation cfg_good, and by an exhaustive single-fault (quick) / double-fault (thorough) differential run of the real methods against the model on fake procfs worlds. Partial: faults at OS-access granularity only.",
+    "level_text": "Machine-checked Lean 4 proofs over a shallow state+exception monad model of psutil's Linux process layer and front end: for every modelled public Process method (C03_safe_<method>, assembled in C03_all_methods over the translator-generated public method list, un-modelled names listed explicitly) and EVERY admissible fault plan (the target turns zombie and/or disappears at any access index, at most one access is refused with EACCES/EPERM — a superset of the property's vanishAt/zombieFrom/denyAt/deny-then-vanish plans) the outcome is a well-formed value or NoSuchProcess/ZombieProcess/AccessDenied carrying the object's pid; loops (threads, open_files, net_connections, ppid_map, children, children(recursive=True) with its stack walk, as_dict, process_iter) by induction over the listed names / the walk's fuel so any number of threads/descriptors/PIDs and any process tree is covered; parents() is modelled and the full statement is proved FALSE of the current source (one denial while an ancestor is queried makes it raise NoSuchProcess/AccessDenied carrying the ancestor's pid: C03_parents_counterexample, known finding C03-parents-foreign-pid), with the weaker guarantee (psutil errors only, C03_safe_parents_partial) and the repaired loop (C03_safe_parents_repaired) proved; parsing-error constructors are proved unreachable; the bare FileNotFoundError re-raise of wrap_exceptions is proved unreachable under admissible plans (and reachable with two denials); C03_gone_is_NSP and its history form C03_gone_forever_history (any sequence of covered queries on any object once the process is gone), C03_as_dict_policy, C03_process_iter_swallow. children() is proved safe for the repaired ppid_map and a counterexample plan is proved for the unrepaired one (lead L3). Tied to the code by translator facts (except tables, decorator tables) that feed the proof obligation cfg_good, and by an exhaustive single-fault (quick) / double-fault (thorough) differential run of the real methods against the model on fake procfs worlds. Partial: faults at OS-access granularity only; other processes are static during a call; goneForever needs the process gone before the first call of the history.",
     "level_note": "Trusted: Lean kernel + {propext, Classical.choice, Quot.sound}; translator; fault layer and correspondence harness; zombie/gone behaviour tables (validated live); file contents are abstracted to well-formed/empty classes (byte-level parsing is C06/C12/C13/C14).",
     "technique": "Lean 4 Hoare-style safety proofs over a fault-plan monad (generic wrap_safe + one body lemma per method, induction for loops) + translator-fed proof obligation + exhaustive fault-position differential correspondence",
     "design_ref": "DESIGN.md §5 C03",
